@@ -72,7 +72,7 @@ PROPS = {
                      "trace, final registers and memory (verification hook) and stdout must equal the model's run loop; L3 progs: random whole programs through "
                      "the real assembler (label/procedure indices, source map); non-trivial = more than one instruction executed / program accepted"
                      " L3 jumpspell + roles: grammar-independent oracles for the spelling tables and emission templates of the control-flow instructions."),
-    "C10": dict(modules=["Emu8086.Props.C10", "Emu8086.Props.C10Text", "Emu8086.Props.C12Text", "Emu8086.Props.C11Text"], runs=[("l3", "shapes"), ("l3", "progs"), ("l4", "shapes"), ("l4", "diag"), ("l3", "jumpspell"), ("l3", "roles")], gen=["Arch", "ILiterals", "PPGrammar"],
+    "C10": dict(modules=["Emu8086.Props.C10", "Emu8086.Props.C10Text", "Emu8086.Props.C12Text", "Emu8086.Props.C11Text", "Emu8086.Props.C11"], runs=[("l3", "shapes"), ("l3", "progs"), ("l4", "shapes"), ("l4", "diag"), ("l3", "jumpspell"), ("l3", "roles")], gen=["Arch", "ILiterals", "PPGrammar"],
                 rule="shapes: EVERY code-emitting alternative of the CURRENT assembler grammar x every spelling of its mnemonic table x sampled operands "
                      "(generated from the grammar on each run); L3 = real Preprocessor vs model (byte-identical lines); L4 = the same programs executed by the real "
                      "binary: the real DataParser / Interpreter / PrintParser judge every emitted line (any 'Internal Error' is a violation); non-trivial = accepted program"
@@ -104,7 +104,7 @@ PROPS = {
                      "size families (10^5 digits, 5000 lines, 70 000-character strings, macro chains), empty input, no final newline — run by the real binary under a "
                      "watchdog (exit 101 / signal / timeout is a violation) and compared with the model; L2 malformed lines against the interpreter in-process"
                      " fuzz also contains files that are not UTF-8 (raw bytes), data blocks crossing the end of memory, macro arity mismatches, the smallest programs under -i."),
-    "C16": dict(modules=["Emu8086.Props.C16", "Emu8086.Props.C16Map"], runs=[("l4", "diag", {"VERIF_STRICT_OUT": "1"}), ("l4", "prompt", {"VERIF_STRICT_OUT": "1"}), ("l4", "run", {"VERIF_STRICT_OUT": "1"})], gen=["Arch", "ILiterals", "PPGrammar"],
+    "C16": dict(modules=["Emu8086.Props.C16", "Emu8086.Props.C16Map", "Emu8086.Props.C11"], runs=[("l4", "diag", {"VERIF_STRICT_OUT": "1"}), ("l4", "prompt", {"VERIF_STRICT_OUT": "1"}), ("l4", "run", {"VERIF_STRICT_OUT": "1"})], gen=["Arch", "ILiterals", "PPGrammar"],
                 rule="single-token corruptions at every token position of a valid program, error mutants with shifted lines / no trailing newline / comment lines, "
                      "stepping runs and prints/interrupts at first/middle/last lines and inside macros and procedures: line number, column and line text in the real "
                      "binary's messages must equal the model's (computed from the source map and byte offsets)"
